@@ -203,6 +203,29 @@ def labels(ctx, R):
             m = re.search(r"\{\\strut (.*)\};$", t)
             if m:
                 used.append(_fill(m.group(1), h))
+        if d == "right":
+            # a datum without text: the macro of label i is still named after i (its position among all nodes), in the
+            # definitions and at the use
+            for tl in (0, 1):
+                ptl = emit.pipe(ctx, TEX, d, n=3, textless=(tl,))
+                _g, doc_h, _r = _tex(ptl, "add_header_text")
+                defs = []
+                for x in doc_h:
+                    t, h = flat(x)
+                    m = re.match(r"^\\def\\text(.+)\{(.+)\}$", t)
+                    if m:
+                        defs.append((_fill(m.group(1), h), _fill(m.group(2), h)))
+                kk = [ptl.item_index(n_) for n_ in ptl.nodes]
+                want_defs = [("int2name(%d)" % i, "uni2tex(TEXT%s)" % kk[i]) for i in range(len(kk)) if kk[i] != tl]
+                _g2, doc_l, _r = _tex(ptl, "add_labels")
+                uses = []
+                for x in doc_l:
+                    t, h = flat(x)
+                    m = re.search(r"\{\\strut (.*)\};$", t)
+                    if m and m.group(1).strip():
+                        uses.append(_fill(m.group(1), h))
+                want_uses = ["\\textint2name(%d)" % i for i in range(len(kk)) if kk[i] != tl]
+                R.check(defs == want_defs and uses == want_uses, "C09.TEXT", "tex text macros with datum %d unlabelled" % tl, where(_g), "macros and uses are both named after the node's index among all nodes", "with a datum without text the TeX text macros are %s and the labels use %s; expected %s and %s: a label shows another datum's text" % (defs, uses, want_defs, want_uses))
         R.check(used == ["\\textint2name(%d)" % i for i in range(len(ks))], "C09.TEXT", "%s|tex label uses its own macro" % d, where(g2), "label i shows \\text<name(i)>", "TikZ labels show %s" % used)
 
 
